@@ -348,7 +348,7 @@ end RatBind
 
 /-! ## summation by parts -/
 
-theorem sum_by_parts (c g : Nat → Rat) (M : Nat) :
+theorem mono_sum_by_parts (c g : Nat → Rat) (M : Nat) :
     ∑ j ∈ range (M+1), c j * (g j - g (j+1))
       = c 0 * g 0 - c M * g (M+1) + ∑ j ∈ range M, (c (j+1) - c j) * g (j+1) := by
   induction M with
@@ -392,7 +392,7 @@ theorem deriv_formula_aux (c : Nat → Rat) :
       have e2 : (j : Int) + 1 + n + 1 = (j : Int) + n + 2 := by omega
       rw [e1, e2]
       ring
-    rw [Finset.sum_congr rfl (fun j _ => hD j), ← Finset.mul_sum, sum_by_parts, h0, hN,
+    rw [Finset.sum_congr rfl (fun j _ => hD j), ← Finset.mul_sum, mono_sum_by_parts, h0, hN,
       Nat.add_sub_cancel]
     simp only [mul_zero, sub_zero, zero_add]
     rw [Finset.mul_sum]
